@@ -144,10 +144,19 @@ class SimHarness(HarnessBase):
             for op in schedule:
                 if op[0] in ('run', 'run_stop', 'run_nc'):
                     K = op[1]
-                    unit = op[2] if (op[0] != 'run_stop' and len(op) > 2) else self.dt_unit
+                    # ('run', K[, unit of dt[, factor on dt[, unit of the simulation time]]])
+                    plain = op[0] != 'run_stop'
+                    unit = op[2] if (plain and len(op) > 2 and op[2]) else self.dt_unit
+                    scale = op[3] if (plain and len(op) > 3) else 1
+                    t_unit = op[4] if (plain and len(op) > 4) else unit
+                    dts = dt * scale if scale != 1 else dt
                     f_u = float(si.SI['Time'][unit])
-                    dtq = gu.TimeInterval(dt / f_u if unit != 'sec' else dt, unit)
-                    Tq = dtq * K
+                    dtq = gu.TimeInterval(dts / f_u if unit != 'sec' else dts, unit)
+                    if t_unit == unit:
+                        Tq = dtq * K
+                    else:
+                        f_t = float(si.SI['Time'][t_unit])
+                        Tq = gu.TimeInterval(dts * K / f_t if t_unit != 'sec' else dts * K, t_unit)
                     stop = None
                     if op[0] == 'run_stop':
                         # the same StopCondition object serves every run of the schedule that names the same condition
@@ -156,7 +165,7 @@ class SimHarness(HarnessBase):
                         stop = stops[op[2]]
                     n0 = len(pt.time)
                     lim['n'] = (n0 + K) if n0 else (K + 1)
-                    rec['runs'].append(dict(K=K, start=n0, end=None, stopped=op[0] == 'run_stop',
+                    rec['runs'].append(dict(K=K, start=n0, end=None, stopped=op[0] == 'run_stop', dt=dts,
                                             controlled=(ctl is not None and op[0] != 'run_nc')))
                     solver.run(time_discretization=dtq, simulation_time=Tq,
                                motor_control=None if op[0] == 'run_nc' else ctl, stop_condition=stop)
@@ -172,6 +181,10 @@ class SimHarness(HarnessBase):
                 elif op[0] == 'reinit':
                     self._set_init(gu, last, th0, om0)
                     M.motor.pwm = rec['pwm_before']
+                elif op[0] == 'reinit_state':
+                    # only what gearpy's documentation calls the initial conditions: position and speed of the last
+                    # element (sound only when the control's first duty cycle equals the motor's duty cycle before the run)
+                    self._set_init(gu, last, th0, om0)
                 elif op[0] == 'reinit_other':
                     # after a reset the user starts a NEW simulation from other initial conditions
                     self._set_init(gu, last, env.real('th0b'), env.real('om0b'))
@@ -469,6 +482,7 @@ class SimHarness(HarnessBase):
             else:
                 obs.append(_ob2('eom.acc[k=%d]' % k, exact, follows, prefer_robust=not self.full))
         for k in pairs:
+            dt = self._dt_at(rec, k)
             w_prev, a_prev = T(E[L]['angular speed'][k - 1]), T(E[L]['angular acceleration'][k - 1])
             adv = w_prev + a_prev * dt
             w = T(E[L]['angular speed'][k])
@@ -481,6 +495,15 @@ class SimHarness(HarnessBase):
             obs.append(eq('eom.position[k=%d]' % k, E[L]['angular position'][k], th_prev + adv * dt,
                           scale=(th_prev, w_prev * dt, a_prev * dt * dt)))
         return obs
+
+    def _dt_at(self, rec, k):
+        """the time discretization of the run() call that computed instant k (each call has its own)"""
+        for r in rec['runs']:
+            s, e = r['start'], r['end']
+            first = 1 if s == 0 else s
+            if first <= k < e:
+                return T(r['dt'])
+        return T(rec['dt'])
 
     def _consecutive(self, rec, n):
         """indices k (>=1) such that instants k-1 and k are consecutive steps of the simulation"""
@@ -512,6 +535,7 @@ class SimHarness(HarnessBase):
             if not lock:
                 obs.append(eq('lock.never_clamped_acc[k=%d]' % k, a * Jeq, net, prefer_robust=not self.full))
                 if k in pairs:
+                    dt = self._dt_at(rec, k)
                     w_prev = T(E[L]['angular speed'][k - 1])
                     a_prev = T(E[L]['angular acceleration'][k - 1])
                     obs.append(eq('lock.never_clamped_speed[k=%d]' % k, E[L]['angular speed'][k],
@@ -739,7 +763,7 @@ def _ob2(name, exact, robust, trigger=None, prefer_robust=False):
 # ----------------------------------------------------------------------------
 # spec lists shared by the simulation properties
 # ----------------------------------------------------------------------------
-NONLOCK = ['T1', 'T2', 'T3', 'T5', 'T6']
+NONLOCK = ['T1', 'T2', 'T3', 'T5', 'T6', 'T10']
 LOCK = ['T4', 'T7']
 
 
@@ -783,6 +807,10 @@ def common_specs(tier, seed, arb=True, locking=True, units=True):
     # run, reset, then a new simulation from OTHER initial conditions on the same objects
     for t in ['T1'] + (['T4'] if locking else ['T3']):
         S.append(spec(t, schedule=(('run', 2), ('reset',), ('reinit_other',), ('run', 3)), tag=':reset_other_ic'))
+    # every run() call has its own time discretization: a continuation and a rerun after reset with another dt
+    # (value and unit), the simulation time given in yet another unit
+    S.append(spec('T1', schedule=(('run', 2), ('run', 2, 'ms', 2, 'sec')), tag=':cont_other_dt'))
+    S.append(spec('T3', schedule=(('run', 2), ('reset',), ('reinit',), ('run', 2, 'sec', 0.5, 'ms')), tag=':rerun_other_dt'))
     # the two motor currents given in different units, fractional duty cycles (fixed and arbitrary)
     S.append(spec('T3', schedule=(('run', 3),), control=('fixed', 0.5), units=(('i0u', 'mA'), ('imaxu', 'A')), tag=':mixed_current_units'))
     S.append(spec('T3', schedule=(('run', 2),), control=('arb', -1, 1), units=(('i0u', 'uA'), ('imaxu', 'mA')), tag=':mixed_current_units'))
@@ -816,9 +844,9 @@ def common_specs(tier, seed, arb=True, locking=True, units=True):
 
 BOUNDS = {
     'quick': 'K steps after the initial instant: K=2 with every continuous parameter symbolic (L-full, fixed duty, '
-             'non-locking chains T1,T2,T3,T5,T6) ; K<=4 with configuration and dt concrete and initial state, loads '
-             '(fresh symbol per call) symbolic (L-state, T1..T7) ; K=2 with an arbitrary duty cycle in [-1,1] per '
-             'instant (T3, T4) ; schedules run(4), run(2)+run(2), run(2)+reset+rerun (same/new Solver, same or other initial conditions), early stop on a fresh run '
+             'non-locking chains T1,T2,T3,T5,T6,T10 (T10 has an idler gear)) ; K<=4 with configuration and dt concrete and initial state, loads '
+             '(fresh symbol per call) symbolic (L-state, T1..T7, T10) ; K=2 with an arbitrary duty cycle in [-1,1] per '
+             'instant (T3, T4) ; schedules run(4), run(2)+run(2), run(2)+run(2) and run(2)+reset+rerun with another dt value/unit and the simulation time in a third unit, run(2)+reset+rerun (same/new Solver, same or other initial conditions), early stop on a fresh run '
              'and during a continuation; chains of 3..8 elements',
     'thorough': 'quick + 44 seeded chains of 2..12 elements (K=3, continuation 2+2), L-full on 5 seeded chains, K=5, 17 unit assignments covering every unit of every input kind, '
                 'continuation 2+3, arbitrary duty on T6/T7',
